@@ -33,7 +33,7 @@ Definition tk_eqb (a b : TokenKind) : bool := N.eqb (kind_code a) (kind_code b).
 Definition tk_in (k : TokenKind) (ks : list TokenKind) : bool := existsb (tk_eqb k) ks.
 
 (* one non-trivia token as the parser sees it *)
-Record tok := mkTok {
+Record tok := mkPTok {
   tk : TokenKind;
   lb_before : bool;   (* leading_trivia_map[p] contains a LineBreak token *)
   lb_after : bool;    (* trailing_trivia_map[p] contains a LineBreak token *)
@@ -113,7 +113,7 @@ Definition bump (st : pstate) : pstate :=
 (* `if let Some(&idx) = token_indices.get(current) { tokens[idx].kind = k }` *)
 Definition mark_kind (k : TokenKind) (st : pstate) : pstate :=
   match rest st with
-  | t :: r => mkSt (mkTok k (lb_before t) (lb_after t) (adj t) :: r) (prev st) (cur st) (stack st) (errs st)
+  | t :: r => mkSt (mkPTok k (lb_before t) (lb_after t) (adj t) :: r) (prev st) (cur st) (stack st) (errs st)
                    ((cur st, k) :: marks st)
   | [] => st
   end.
